@@ -1,7 +1,9 @@
 """C12 — path-variable commands obey list algebra.
 
-Implementation: eups.table.Action(...).execute(Eups, 1, fwd) for envPrepend / envAppend / envSet / envUnset.
-Model: lean/EupsModel/Model/PathAlg.lean through the driver op "path".
+Implementation: eups.table.Action(...).execute(Eups, 1, fwd) for envPrepend / envAppend / envSet / envUnset / addAlias, on
+actions constructed directly or read from a real table file through Product.getTable(...).actions(flavor), after
+Table.expandEupsVariables.
+Model: lean/EupsModel/Model/PathAlg.lean + Model/PathAct.lean through the driver op "path".
 Oracle (ii): the list laws of the property evaluated on the implementation's own output, from the
 generator's *structured* description of the case (no use of the model)."""
 import contextlib
@@ -22,7 +24,9 @@ RULE = ("cases = (prior environment, sequence of 1-6 envPrepend/envAppend/envSet
         "non-trivial when at least one action changes the variable or is refused; distinct = distinct case digests")
 TRUSTED = ["CPython `re`, `str.split/join` on the patterns used by execute_envPrepend (exercised, not verified)",
            "values free of backslashes and newlines (re.sub template processing and `$` before a trailing newline are not modelled)"]
-ASSUMPTIONS = ["delimiters are non-empty literal strings",
+ASSUMPTIONS = ["product names, versions, flavors and directories are ASCII and free of backslashes (they pass through re.sub as replacement templates in Table.expandEupsVariables); subscripts of ${EUPS_PATH[n]} are ASCII digits",
+               "table lines of the file route carry plainly quoted arguments (the parser itself is C11's)",
+               "delimiters are non-empty literal strings",
                "the oracle's notion of 'element' is: pieces of the value split at the literal delimiter, empties dropped"]
 
 MIRRORS = [("python/eups/table.py", "Action.execute_envPrepend"), ("python/eups/table.py", "Action.execute_envSet"),
@@ -257,17 +261,22 @@ def _arg(s):
 
 
 def table_text(case):
+    """The actions as table lines; every command is written under one of the names Table._read accepts for it (chosen by
+    the position of the line, so that the text is a function of the case)."""
+    names = {"append": ["envAppend", "pathAppend", "ENVAPPEND"], "prepend": ["envPrepend", "pathPrepend", "EnvPrepend"],
+             "set": ["envSet", "pathSet", "setenv"], "unset": ["envUnset", "pathRemove", "unsetenv"], "alias": ["addAlias", "addalias"]}
     lines = []
-    for a in case["acts"]:
+    for i, a in enumerate(case["acts"]):
+        cmd = names[a["op"]][(i + len(a["var"]) + len(a["value"])) % len(names[a["op"]])]
         if a["op"] in ("prepend", "append"):
             args = [a["var"], a["value"]] + ([a["delim"]] if a["delim"] != ":" else [])
-            lines.append("%s(%s)" % ("envAppend" if a["op"] == "append" else "envPrepend", ", ".join(_arg(x) for x in args)))
         elif a["op"] == "set":
-            lines.append("envSet(%s, %s)" % (_arg(a["var"]), _arg(a["value"])))
+            args = [a["var"], a["value"]]
         elif a["op"] == "alias":
-            lines.append("addAlias(%s, %s)" % (_arg(a["var"]), ", ".join(_arg(w) for w in a["words"])))
+            args = [a["var"]] + list(a["words"])
         else:
-            lines.append("envUnset(%s)" % _arg(a["var"]))
+            args = [a["var"]]
+        lines.append("%s(%s)%s" % (cmd, ", ".join(_arg(x) for x in args), ";" if i % 3 == 2 else ""))
     return "\n".join(lines) + "\n"
 
 
